@@ -48,6 +48,7 @@ type Report struct {
 	Unmodelled    []Note         `json:"unmodelled_constructs"`
 	ImportsOfNote []Note         `json:"imports_of_note"`
 	Rewrites      map[string]int `json:"rewrites"`
+	Modelled      map[string]int `json:"modelled_concurrency_constructs"`
 	APIFuncs      []string       `json:"api_funcs"`
 	TypeErrors    []string       `json:"type_errors"`
 }
@@ -176,6 +177,7 @@ func main() {
 	}
 	rep.Module = modPath
 	rep.Rewrites = map[string]int{}
+	rep.Modelled = map[string]int{}
 	stdImp = importer.ForCompiler(fset, "source", nil)
 	for _, r := range strings.Split(roots, ",") {
 		load(modPath + "/" + r)
@@ -293,8 +295,20 @@ var noteImports = map[string]bool{"time": true, "os": true, "io": true, "net": t
 
 // analyse collects package-level facts of one file (independent of mode).
 func analyse(p *pkgInfo, f *ast.File, name string) {
+	chanOps := 0
+	feeds := ""
+	defer func() {
+		// a channel that real (non-simulated) code may feed - timers, contexts, signals -
+		// cannot be modelled: its counterpart is not a simulated task
+		if chanOps > 0 && feeds != "" {
+			rep.Unmodelled = append(rep.Unmodelled, Note{"channel operations in a file that imports " + feeds, name})
+		}
+	}()
 	for _, is := range f.Imports {
 		ip := strings.Trim(is.Path.Value, "\"")
+		if ip == "time" || ip == "context" || ip == "os/signal" {
+			feeds = ip
+		}
 		if noteImports[ip] {
 			rep.ImportsOfNote = append(rep.ImportsOfNote, Note{ip, pos(is.Pos())})
 		}
@@ -317,14 +331,22 @@ func analyse(p *pkgInfo, f *ast.File, name string) {
 	ast.Inspect(f, func(n ast.Node) bool {
 		switch x := n.(type) {
 		case *ast.GoStmt:
-			rep.Unmodelled = append(rep.Unmodelled, Note{"go statement", pos(x.Pos())})
+			if _, ok := x.Call.Fun.(*ast.FuncLit); ok {
+				rep.Modelled["go func literal"]++
+			} else {
+				// arguments of `go f(x)` are evaluated at the go statement; wrapping the call
+				// in a closure would change that, so this form is not rewritten
+				rep.Unmodelled = append(rep.Unmodelled, Note{"go statement on a named function or method value", pos(x.Pos())})
+			}
 		case *ast.SendStmt:
-			rep.Unmodelled = append(rep.Unmodelled, Note{"channel send", pos(x.Pos())})
+			rep.Modelled["channel send"]++
+			chanOps++
 		case *ast.SelectStmt:
 			rep.Unmodelled = append(rep.Unmodelled, Note{"select", pos(x.Pos())})
 		case *ast.UnaryExpr:
 			if x.Op == token.ARROW {
-				rep.Unmodelled = append(rep.Unmodelled, Note{"channel receive", pos(x.Pos())})
+				rep.Modelled["channel receive"]++
+				chanOps++
 			}
 		case *ast.RangeStmt:
 			if tv, ok := p.info.Types[x.X]; ok && tv.Type != nil {
@@ -332,7 +354,8 @@ func analyse(p *pkgInfo, f *ast.File, name string) {
 				case *types.Map:
 					rep.MapRange = append(rep.MapRange, Note{"range over map", pos(x.Pos())})
 				case *types.Chan:
-					rep.Unmodelled = append(rep.Unmodelled, Note{"range over channel", pos(x.Pos())})
+					rep.Modelled["range over channel"]++
+					chanOps++
 				}
 			}
 		case *ast.SelectorExpr:
@@ -345,7 +368,6 @@ func analyse(p *pkgInfo, f *ast.File, name string) {
 				}
 				switch {
 				case strings.HasPrefix(full, "(*sync.Cond)"), full == "sync.Cond", full == "sync.NewCond",
-					strings.HasPrefix(full, "(*sync.WaitGroup)"), full == "sync.WaitGroup",
 					full == "time.Sleep", full == "time.After", full == "time.AfterFunc", full == "time.NewTimer",
 					full == "time.NewTicker", full == "time.Tick", full == "runtime.SetFinalizer",
 					full == "(sync.Locker).Lock", strings.HasPrefix(full, "(*golang.org/x/sync"):
@@ -378,6 +400,7 @@ func instrument(p *pkgInfo, f *ast.File, src []byte, simImport string) []byte {
 	}
 	usedSim := false
 	rewroteSyncFunc := false
+	commaOK := map[*ast.UnaryExpr]bool{}
 
 	// is this statement "shared"? (shallow: nested blocks and function literals excluded)
 	var shallowShared func(n ast.Node) bool
@@ -509,6 +532,62 @@ func instrument(p *pkgInfo, f *ast.File, src []byte, simImport string) []byte {
 				return false
 			case *ast.CallExpr:
 				rewriteCall(p, x, off, src, add, &usedSim, &rewroteSyncFunc)
+			case *ast.GoStmt:
+				if fl, ok := x.Call.Fun.(*ast.FuncLit); ok {
+					add(off(x.Pos()), 0, "{ zzT := zzsim.TaskNew(); ")
+					add(off(fl.Body.Lbrace)+1, 0, " zzsim.TaskEnter(zzT); defer zzsim.TaskExit(zzT); ")
+					add(off(x.End()), 0, " }")
+					rep.Rewrites["go func literal"]++
+				}
+			case *ast.SendStmt:
+				add(off(x.Chan.Pos()), 0, "zzsim.Send(")
+				add(off(x.Chan.End()), off(x.Value.Pos())-off(x.Chan.End()), ", ")
+				add(off(x.Value.End()), 0, ")")
+				rep.Rewrites["chan send"]++
+			case *ast.AssignStmt:
+				if len(x.Lhs) == 2 && len(x.Rhs) == 1 {
+					if u, ok := unparen(x.Rhs[0]).(*ast.UnaryExpr); ok && u.Op == token.ARROW {
+						commaOK[u] = true
+					}
+				}
+			case *ast.ValueSpec:
+				if len(x.Names) == 2 && len(x.Values) == 1 {
+					if u, ok := unparen(x.Values[0]).(*ast.UnaryExpr); ok && u.Op == token.ARROW {
+						commaOK[u] = true
+					}
+				}
+			case *ast.UnaryExpr:
+				if x.Op == token.ARROW {
+					name := "Recv"
+					if commaOK[x] {
+						name = "Recv2"
+					}
+					add(off(x.OpPos), off(x.X.Pos())-off(x.OpPos), "zzsim."+name+"(")
+					add(off(x.X.End()), 0, ")")
+					rep.Rewrites["chan receive"]++
+				}
+			case *ast.RangeStmt:
+				if tv, ok := p.info.Types[x.X]; ok && tv.Type != nil {
+					if _, isChan := tv.Type.Underlying().(*types.Chan); isChan {
+						ch := string(src[off(x.X.Pos()):off(x.X.End())])
+						hdr := ""
+						switch {
+						case x.Key == nil:
+							hdr = " { _, zzok := zzsim.Recv2(" + ch + "); if !zzok { break }; "
+						case x.Tok == token.DEFINE:
+							k := string(src[off(x.Key.Pos()):off(x.Key.End())])
+							hdr = " { " + k + ", zzok := zzsim.Recv2(" + ch + "); if !zzok { break }; "
+						default:
+							k := string(src[off(x.Key.Pos()):off(x.Key.End())])
+							hdr = " { var zzok bool; " + k + ", zzok = zzsim.Recv2(" + ch + "); if !zzok { break }; "
+						}
+						add(off(x.For)+3, off(x.Body.Lbrace)+1-(off(x.For)+3), hdr)
+						rep.Rewrites["range over chan"]++
+						// only the body is walked further (the header text was replaced)
+						doList(x.Body.List, fn, api, first)
+						return false
+					}
+				}
 			}
 			return true
 		})
@@ -642,10 +721,29 @@ func rewriteCall(p *pkgInfo, c *ast.CallExpr, off func(token.Pos) int, src []byt
 		add(off(c.Fun.Pos()), off(c.Lparen)+1-off(c.Fun.Pos()), "zzsim.OnceDo("+recvText()+", ")
 		rep.Rewrites["Once.Do"]++
 		*usedSim = true
+	case "(*sync.WaitGroup).Add":
+		add(off(c.Fun.Pos()), off(c.Lparen)+1-off(c.Fun.Pos()), "zzsim.WGAdd("+recvText()+", ")
+		rep.Rewrites["WaitGroup.Add"]++
+	case "(*sync.WaitGroup).Done":
+		add(off(c.Fun.Pos()), off(c.Lparen)+1-off(c.Fun.Pos()), "zzsim.WGDone("+recvText())
+		rep.Rewrites["WaitGroup.Done"]++
+	case "(*sync.WaitGroup).Wait":
+		add(off(c.Fun.Pos()), off(c.Lparen)+1-off(c.Fun.Pos()), "zzsim.WGWait("+recvText())
+		rep.Rewrites["WaitGroup.Wait"]++
 	case "sync.OnceFunc", "sync.OnceValue", "sync.OnceValues":
 		add(off(sel.Pos()), off(sel.End())-off(sel.Pos()), "zzsim."+sel.Sel.Name)
 		rep.Rewrites[full]++
 		*usedSim = true
 		*rewroteSyncFunc = true
+	}
+}
+
+func unparen(e ast.Expr) ast.Expr {
+	for {
+		p, ok := e.(*ast.ParenExpr)
+		if !ok {
+			return e
+		}
+		e = p.X
 	}
 }
